@@ -54,7 +54,7 @@ func (x *Exec) specOf(v Value) *Spec {
 		KeyAlpha: cstr(x, s[3], "spec"), KeyMin: cint(x, s[4], "spec"), KeyMax: cint(x, s[5], "spec"),
 		StrAlpha: cstr(x, s[6], "spec"), StrMax: cint(x, s[7], "spec"),
 		NoListInList: cbool(x, s[8], "spec"), NoEmptyList: cbool(x, s[9], "spec"), NoEmptyMap: cbool(x, s[10], "spec"),
-		StrMin: cint(x, s[11], "spec"),
+		StrMin: cint(x, s[11], "spec"), MapWidth: cint(x, s[12], "spec"),
 	}
 	if sp.Kinds == "" {
 		sp.Kinds = "mlsfbn"
